@@ -120,7 +120,8 @@ ApplyK(c, k, a, b) ==
            {[c EXCEPT !.layout = IF Layouts[a] = "" THEN TsDefaultLayoutC ELSE Layouts[a]]}
       [] k = "Level" -> {[c EXCEPT !.level = a]}
       \* SetAttrs(attr) / SetAttrs1(Attrs{attr}) / Set(key, value): all append one attribute
-      [] k \in {"Attrs", "Attrs1", "SetKV"} -> {[c EXCEPT !.attrs = Append(c.attrs, <<a, b>>)]}
+      \* ("KV": a bare key, value pair among the arguments of New)
+      [] k \in {"Attrs", "Attrs1", "SetKV", "KV"} -> {[c EXCEPT !.attrs = Append(c.attrs, <<a, b>>)]}
       \* SetAttrs with a attributes at once: keys b, b+1, ..., values 1..a
       [] k = "AttrsN" -> {[c EXCEPT !.attrs = c.attrs \o [x \in 1..a |-> <<b + x - 1, x>>]]}
       \* an EMPTY list given to SetAttrs/SetAttrs1/Set/SetContextKeys (With...: still a new child)
@@ -465,8 +466,10 @@ WithKinds == {"JSONMode", "ColorMode", "UTCMode", "TimeFormat", "Level", "Attrs"
 
 Set(l, k, a, b) == "Set" \in Acts /\ <<a, b>> \in SetterArgs[k] /\ Room(l, k, b) /\ Do("Set", l, k, a, b)
 With(l, k, a, b) == "With" \in Acts /\ k \in WithKinds /\ st.n < MaxLoggers /\ <<a, b>> \in SetterArgs[k] /\ Do("With", l, k, a, b)
-New(l, nm, oi) == "New" \in Acts /\ st.n < MaxLoggers /\ Do("New", l, nm, oi, 0)
-NewDetached(nm, oi) == "NewDetached" \in Acts /\ st.n < MaxLoggers /\ Do("NewDetached", 0, nm, oi, 0)
+\* bare key, value arguments of New need a name in front of them: the first string argument IS the name
+HasKV(oi) == \E j \in DOMAIN OptLists[oi] : OptLists[oi][j].k = "KV"
+New(l, nm, oi) == "New" \in Acts /\ st.n < MaxLoggers /\ (nm = "" => ~HasKV(oi)) /\ Do("New", l, nm, oi, 0)
+NewDetached(nm, oi) == "NewDetached" \in Acts /\ st.n < MaxLoggers /\ (nm = "" => ~HasKV(oi)) /\ Do("NewDetached", 0, nm, oi, 0)
 PkgSetLevel(v) == "PkgSetLevel" \in Acts /\ "Level" \in DOMAIN SetterArgs /\ <<v, 0>> \in SetterArgs["Level"] /\ Do("PkgSetLevel", 0, "", v, 0)
 SetDefault(l) == "SetDefault" \in Acts /\ Do("SetDefault", l, "", 0, 0)
 LogF(l, r, fi) == "LogF" \in Acts /\ Do("LogF", l, "", r, fi)
